@@ -1087,3 +1087,18 @@ func asBool(o Object) Boolean {
 
 //@ func bMark
 //@ ensures [C02.mark] result == nil && depth(intp) == old(depth(intp)) + 1 && isMark(top(intp, 0)) && stackFrame(intp, 0)
+
+// eq / ne on integers (PLRM 8.2: exact comparison).  The other operand types go
+// through a function literal inside equal that the engine does not inline; they
+// are not under contract.
+//@ func equal
+//@ safety C01
+//@ ensures [C02.equal.int] isInt(a) && isInt(b) ==> result1 == nil && result0 == (asInt(a) == asInt(b))
+
+//@ func bEq
+//@ ensures [C02.eq.underflow] old(depth(intp)) < 2 ==> isPSErr(result, eStackunderflow) && depth(intp) == old(depth(intp))
+//@ ensures [C02.eq.int] old(depth(intp)) >= 2 && isInt(old(top(intp, 1))) && isInt(old(top(intp, 0))) ==> result == nil && depth(intp) == old(depth(intp)) - 1 && isBool(top(intp, 0)) && bool(asBool(top(intp, 0))) == (asInt(old(top(intp, 1))) == asInt(old(top(intp, 0)))) && stackFrame(intp, 2)
+
+//@ func bNe
+//@ ensures [C02.ne.underflow] old(depth(intp)) < 2 ==> isPSErr(result, eStackunderflow) && depth(intp) == old(depth(intp))
+//@ ensures [C02.ne.int] old(depth(intp)) >= 2 && isInt(old(top(intp, 1))) && isInt(old(top(intp, 0))) ==> result == nil && depth(intp) == old(depth(intp)) - 1 && isBool(top(intp, 0)) && bool(asBool(top(intp, 0))) == (asInt(old(top(intp, 1))) != asInt(old(top(intp, 0)))) && stackFrame(intp, 2)
